@@ -8,6 +8,7 @@
 // the real implementation, in this TU (private struct access for the key)
 #include "core/message.c"
 
+#include "vbfs.h"
 #include "vs.h"
 #include <stdio.h>
 #include <stdlib.h>
@@ -497,11 +498,76 @@ rebuild(const hist *h, model *M)
 {
 	nng_msg *m = NULL;
 	for (int i = 0; i < h->n; i++) {
-		int r = apply(&m, M, &OPS[h->op[i]], i);
+		int r = apply(&m, M, &OPS[i == 0 ? h->op[i] : NROOT + h->op[i]], i);
 		if (r != 0)
 			return NULL; // cannot happen: prefix already validated
 	}
 	return m;
+}
+
+static char *
+vhist_str(const vb_hist *h)
+{
+	hist hh;
+	hh.n = h->n;
+	memcpy(hh.op, h->op, h->n);
+	return hist_str(&hh, hh.n);
+}
+
+static int
+c17_step(void *ctx, const vb_hist *h, int op, uint64_t *key, char *sig,
+    size_t sigsz, char *err, size_t errsz)
+{
+	(void) ctx;
+	static model M;
+	hist         hh;
+	int          aop = h->n == 0 ? op : NROOT + op;
+	hh.n             = h->n;
+	memcpy(hh.op, h->op, h->n);
+	nng_msg *m = NULL;
+	if (h->n > 0) {
+		m = rebuild(&hh, &M);
+		if (m == NULL) {
+			snprintf(sig, sigsz, "C17:replay-divergence");
+			snprintf(err, errsz, "validated history did not replay: %s",
+			    errbuf);
+			return -1;
+		}
+	}
+	int r = apply(&m, &M, &OPS[aop], h->n);
+	if (r == 1) {
+		if (m)
+			nng_msg_free(m);
+		return 1;
+	}
+	if (r < 0) {
+		snprintf(sig, sigsz, "C17:%s:%s", OPN[OPS[aop].kind],
+		    strstr(errbuf, "differs")        ? "content"
+		        : strstr(errbuf, "want")     ? "result"
+		        : strstr(errbuf, "length")   ? "length"
+		        : strstr(errbuf, "capacity") ? "capacity"
+		                                     : "other");
+		snprintf(err, errsz, "%s", errbuf);
+		return -1; // leak m: it may be corrupt
+	}
+	*key = key_of(m);
+	nng_msg_free(m);
+	return 0;
+}
+static int
+c17_nops(void *ctx, const vb_hist *h)
+{
+	(void) ctx;
+	return h->n == 0 ? NROOT : NOPS - NROOT;
+}
+static void
+c17_desc(void *ctx, const vb_hist *h, char *out, size_t sz)
+{
+	(void) ctx;
+	vb_hist t = *h;
+	for (int i = 1; i < t.n; i++)
+		t.op[i] = (uint8_t) (t.op[i] + NROOT); // stored relative
+	snprintf(out, sz, "%s", vhist_str(&t));
 }
 
 int
@@ -509,109 +575,13 @@ main(int argc, char **argv)
 {
 	vx_init(argc, argv, "C17");
 	mk_ops();
-	int   maxdepth = vx_is_thorough() ? 12 : 3;
-	seen           = calloc(HT, sizeof(uint64_t));
-	hist *q        = malloc(sizeof(hist) * (6u << 20));
-	size_t qh = 0, qt = 0, qcap = 6u << 20;
-	long   states = 0, trans = 0, skipped = 0;
-	int    deepest = 0, closed = 1, timecut = 0;
-	model *M = malloc(sizeof(model));
-	// roots
-	for (int r = 0; r < NROOT; r++) {
-		hist h  = { 1, { (uint8_t) r } };
-		nng_msg *m = NULL;
-		if (apply(&m, M, &OPS[r], 0) != 0) {
-			vx_violation("C17:alloc", "%s: %s", hist_str(&h, 1), errbuf);
-			continue;
-		}
-		trans++;
-		if (seen_add(key_of(m))) {
-			q[qt++] = h;
-			states++;
-		}
-		nng_msg_free(m);
-	}
-	int nviol = 0;
-	while (qh < qt && nviol < 50) {
-		hist h = q[qh++];
-		if (h.n > deepest)
-			deepest = h.n;
-		if (h.n >= maxdepth + 1 || h.n >= MAXH) {
-			closed = 0;
-			continue;
-		}
-		if (vx_time_left() < 5) {
-			closed  = 0;
-			timecut = 1;
-			break;
-		}
-		nng_msg *base = rebuild(&h, M);
-		model   *MB   = malloc(sizeof(model));
-		*MB           = *M;
-		for (int o = NROOT; o < NOPS; o++) {
-			nng_msg *m = base ? raw_clone(base) : NULL;
-			*M         = *MB;
-			if (m == NULL) {
-				vx_violation("C17:replay-divergence",
-				    "history %s did not replay: %s", hist_str(&h, h.n),
-				    errbuf);
-				nviol++;
-				break;
-			}
-			hist h2     = h;
-			h2.op[h2.n] = (uint8_t) o;
-			h2.n++;
-			int r = apply(&m, M, &OPS[o], h.n);
-			if (r == 1) {
-				skipped++;
-				nng_msg_free(m);
-				continue;
-			}
-			trans++;
-			if (r < 0) {
-				char sig[120];
-				snprintf(sig, sizeof(sig), "C17:%s:%s",
-				    OPN[OPS[o].kind],
-				    strstr(errbuf, "differs")   ? "content"
-				        : strstr(errbuf, "want") ? "result"
-				        : strstr(errbuf, "length") ? "length"
-				        : strstr(errbuf, "capacity") ? "capacity"
-				                                   : "other");
-				vx_violation(sig, "history: %s => %s",
-				    hist_str(&h2, h2.n), errbuf);
-				nviol++;
-				if (m)
-					nng_msg_free(m);
-				continue;
-			}
-			if (seen_add(key_of(m))) {
-				states++;
-				if (qt < qcap)
-					q[qt++] = h2;
-				else
-					closed = 0;
-				if (states % 50000 == 1)
-					vx_sample("%s", hist_str(&h2, h2.n));
-			}
-			nng_msg_free(m);
-		}
-		free(MB);
-		if (base)
-			nng_msg_free(base);
-	}
-	if (qh < qt)
-		closed = 0;
-	vx_sample("deepest history length %d; ops alphabet %d (+%d roots)", deepest,
-	    NOPS - NROOT, NROOT);
-	vx_add_counts(states, trans, trans);
-	if (timecut || nviol >= 50)
-		vx_set_exhaustive(0); // else: complete up to the depth bound
+	int maxdepth = vx_is_thorough() ? 5 : 4; // alloc + 3 (quick) / 4 ops
+	vb_run("msg", NULL, c17_step, c17_nops, c17_desc, maxdepth, 24, 8u << 20,
+	    50);
 	vx_note("bounds",
-	    "body length <= %d (ops that would exceed are skipped: %ld), BFS depth "
-	    "<= %d, state key = (capacity, headroom, length, header length); closed "
-	    "under the alphabet: %s",
-	    LMAX, skipped, maxdepth, closed ? "yes" : "no (depth/time bound)");
-	fprintf(stderr, "[C17] states=%ld transitions=%ld deepest=%d closed=%d\n",
-	    states, trans, deepest, closed);
+	    "body length <= %d (ops that would exceed are skipped), history = "
+	    "alloc(size) + up to %d operations from an alphabet of %d, state key = "
+	    "(capacity, headroom, length, header length)",
+	    LMAX, maxdepth - 1, NOPS - NROOT);
 	return vx_finish();
 }
